@@ -389,8 +389,8 @@ def rule_mode(ctx, px):
     for qual in ("CodeGenerator._generate_code", "SupportGenerator.generate_all"):
         g = px.func(GEN_MOD, qual)
         # the classification loop may live in a private helper of the class that the function calls
-        loops = [n for n in pyfront.walk_with_helpers(px, g) if isinstance(n, ast.For) and ast.unparse(n.iter) in ("self._post_processors", "cls._post_processors")
-                 or (isinstance(n, ast.For) and isinstance(n.iter, ast.Name) and n.iter.id in ("post_processors",))]
+        loops = [n for n in pyfront.walk_with_helpers(px, g) if isinstance(n, ast.For) and
+                 any(isinstance(x, ast.Attribute) and x.attr == "_post_processors" for x in ast.walk(n.iter))]
         ok = len(loops) == 1
         if ok:
             lp = loops[0]
